@@ -139,7 +139,8 @@ func UnknownTail(r *vschema.Rand, used map[int]bool, depth int) []byte {
 			case 2:
 				// numbers no schema can declare (19000..19999 are reserved for the protobuf implementation) but that are
 				// ordinary field numbers on the wire, and the tag-width boundaries
-				num = []int{18999, 19000, 19001, 19500, 19999, 20000, 15, 16, 2047, 2048, 262143, 262144, 33554431, 33554432}[r.Intn(14)]
+				// ... and small numbers that corpus messages declare as `reserved` (5 to 7, 10, 100 to 200)
+				num = []int{18999, 19000, 19001, 19500, 19999, 20000, 15, 16, 2047, 2048, 262143, 262144, 33554431, 33554432, 5, 6, 7, 10, 100, 150, 200}[r.Intn(21)]
 			default:
 				num = 1 + r.Intn(3000)
 			}
